@@ -41,6 +41,10 @@ type caseC11 struct {
 	// Other: frames of OTHER packets decoded between the encodings (operation
 	// 5 takes the next one); decoding one packet must not change another.
 	Other []preOp `json:"other,omitempty"`
+	// Repeat: number of encodings when larger than the default 16 ("any
+	// number of times": counters, quotas and caches that only change
+	// behaviour after many calls).
+	Repeat int `json:"repeat,omitempty"`
 }
 
 var roOpNames = []string{"WriteTo", "String", "Dump", "WellFormed", "Accessors", "decode another packet"}
@@ -95,7 +99,11 @@ func checkC11(c caseC11) (frame []byte, sig, msg string) {
 			}
 		}
 		nextOther := 0
-		for i := 0; enc < c11Encodings || i < len(c.Ops); i++ {
+		encodings := c11Encodings
+		if c.Repeat > encodings {
+			encodings = c.Repeat
+		}
+		for i := 0; enc < encodings || i < len(c.Ops); i++ {
 			if i < len(c.Ops) {
 				if c.Ops[i] == 5 {
 					if nextOther < len(c.Other) {
@@ -180,6 +188,34 @@ func TestC11(t *testing.T) {
 	}
 	if vf.ReplayOnly() {
 		return
+	}
+
+	// volume: one small packet of every type encoded very many times in this
+	// process (shard 0 only, so that the count per process is what it says)
+	if *vf.Shard == 0 {
+		vol := 70000 // not divided among shards: the count per process matters
+		if vf.Thorough() {
+			vol = 1200000
+		}
+		for _, f := range fuzzSeeds()[:30] {
+			m, err := ref.DecodeStrict(f)
+			if err != nil || (m.Type == model.DISCONNECT && !api.DisconnectHasSetters() && (m.ReasonString != "" || m.SessionExpiry != 0 || m.ServerReference != "")) {
+				continue
+			}
+			if m.Type == model.PUBLISH && m.QoS == 0 {
+				m.QoS, m.PacketID = 2, 9 // both acknowledged service levels occur
+			}
+			c := caseC11{ModelGob: packModel(m), Model: m.String(), Plan: api.Plan(&m, nil, nil), Repeat: vol}
+			_, sig, msg := checkC11(c)
+			r.Evals(int64(vol))
+			r.Case(vf.FPs("volume", c.ModelGob), true, "volume/"+typeName(m.Type), func() interface{} {
+				return map[string]interface{}{"model": m.String(), "encodings": vol}
+			})
+			if msg != "" {
+				r.Fail("encode", c, sig, "%s\nmodel: %s", msg, m.String())
+				break
+			}
+		}
 	}
 
 	var forChildren []caseC11
